@@ -82,10 +82,19 @@ def run_scenario(exe, lines, timeout=60):
     env = dict(os.environ)
     env["K6_TMP"] = os.path.join(C.CACHE, "k6tmp")
     os.makedirs(env["K6_TMP"], exist_ok=True)
+    timeout = C.scaled(timeout)
+    e = None
     try:
         p = subprocess.run([exe], input="\n".join(lines) + "\n", env=env, stdout=subprocess.PIPE, stderr=subprocess.PIPE,
                            timeout=timeout, universal_newlines=True, errors="replace")
-    except subprocess.TimeoutExpired as e:
+    except subprocess.TimeoutExpired:
+        # once more, alone and with a longer limit, before calling it a hang
+        try:
+            p = subprocess.run([exe], input="\n".join(lines) + "\n", env=env, stdout=subprocess.PIPE, stderr=subprocess.PIPE,
+                               timeout=3 * timeout, universal_newlines=True, errors="replace")
+        except subprocess.TimeoutExpired as e2:
+            e = e2
+    if e is not None:
         out = e.stdout or ""
         if isinstance(out, bytes):
             out = out.decode(errors="replace")
